@@ -84,7 +84,7 @@ def d_package(ann, extra_decls=()):
         ls.append("// @immutable")
     if ann.get("ctors"):
         ls.append("// @constructor NewT2")
-    ls += ["type T2 struct{ X int }", "", "// hidden is unexported but handed out by Hidden; rec is unexported but named by the exported alias Rec."]
+    ls += ["type T2 struct {", "\tX  int", "\tIn any", "}", "", "// hidden is unexported but handed out by Hidden; rec is unexported but named by the exported alias Rec."]
     if ann.get("imm"):
         ls.append("// @immutable")
     ls += ["type hidden struct{ X int }", "", "// Hidden hands out a hidden.", "func Hidden() *hidden { return new(hidden) }", ""]
@@ -256,6 +256,9 @@ def build_generic(sc, sid, container_fn, d_extra=()):
     if "ptrofalias" in sps:
         h.add("type TPA = *TA", "")
     h.add("var _ %sU" % qual, "")
+    if pkg != "d":
+        # the using package has a type of its own that is also called T, with the same constructor names: a different type
+        h.add("// T is u's own record type; it only shares its name with d.T.", "// @constructor NewT, MakeT", "type T struct{ Own int }", "")
     for l in handles:
         h.add(l)
     files.append(h)
@@ -271,6 +274,8 @@ def build_generic(sc, sid, container_fn, d_extra=()):
     if pkg == "d":
         pkgs[0]["files"] += gofiles
     else:
+        # the first file of the using package imports only "unsafe": the first import of the package carries no annotations
+        gofiles.insert(0, {"name": "u/a0_sizes.go", "src": 'package u\n\nimport "unsafe"\n\nvar _ = unsafe.Sizeof(0)\n'})
         pkgs.append({"path": "m/u", "name": "u", "files": gofiles})
     expect = set()
     for f, i, code in sc["expect"]:
@@ -295,6 +300,7 @@ CTOR_STMT = {
     "varBlank": ("var _ %(t)s", None),
     "onU": ("_ = %(q)sU{X: %(n)d}", None),
     "lit2": ("_ = %(q)sT2{X: %(n)d}", "var g%(n)d = %(q)sT2{X: %(n)d}"),
+    "nestNewInLit2": ("_ = %(q)sT2{X: %(n)d, In: new(%(q)sT)}", None),
     "new2": ("v%(n)d := new(%(q)sT2)", "var g%(n)d = new(%(q)sT2)"),
     "varZero2": ("var v%(n)d %(q)sT2", "var g%(n)d %(q)sT2"),
     "litRec": ("_ = %(q)sRec{X: %(n)d}", "var g%(n)d = %(q)sRec{X: %(n)d}"),
